@@ -121,6 +121,10 @@ func execute(cs Case, choose sched.Chooser) (sched.Result, *runInfo) {
 	return r, info
 }
 
+// all explored schedules are checked by the oracle; one in emitEvery of the passing ones also goes to the Coq model
+var emitEvery = 1
+var emitCount int
+
 func report(c *core.Ctx, cs Case, r sched.Result, info *runInfo) {
 	cs.Choices = r.Chosen
 	c.Begin(cs)
@@ -146,6 +150,11 @@ func report(c *core.Ctx, cs Case, r sched.Result, info *runInfo) {
 		c.Fail("deadlock in sync2.Set", fmt.Sprint(r.Steps))
 	} else if msg := oracle(cs, r, info); msg != "" {
 		c.Fail(msg, describe(info))
+	}
+	emitCount++
+	if emitEvery > 1 && emitCount%emitEvery != 0 && c.Stats["oracle_failures"] == 0 {
+		c.Count("explored_oracle_only")
+		return
 	}
 	progs := make([]string, len(cs.Progs))
 	results := make([]string, len(cs.Progs))
@@ -287,49 +296,12 @@ func layout(which int) []CallSpec {
 }
 
 func explore(c *core.Ctx, cs Case, maxPre, limit int) {
-	var base []int
-	{
-		r, _ := execute(Case{Prefix: cs.Prefix, Progs: [][]CallSpec{{}}}, sched.NonPreemptive)
-		base = r.Chosen
-	}
-	count := 0
-	var rec func(prefix []int) bool
-	rec = func(prefix []int) bool {
-		if count >= limit {
-			return false
-		}
+	r0, _ := execute(Case{Prefix: cs.Prefix, Progs: [][]CallSpec{{}}}, sched.NonPreemptive)
+	sched.ExploreBFS(func(prefix []int) sched.Result {
 		r, info := execute(cs, sched.Prefix(prefix))
-		count++
 		report(c, cs, r, info)
-		for j := len(prefix); j < len(r.Chosen); j++ {
-			if j < len(base) {
-				continue
-			}
-			pre := 0
-			for i := len(base) + 1; i < j; i++ {
-				if r.Chosen[i] != r.Chosen[i-1] && has(r.Enabled[i], r.Chosen[i-1]) {
-					pre++
-				}
-			}
-			for _, alt := range r.Enabled[j] {
-				if alt == r.Chosen[j] {
-					continue
-				}
-				p := pre
-				if j > len(base) && has(r.Enabled[j], r.Chosen[j-1]) && alt != r.Chosen[j-1] {
-					p++
-				}
-				if p > maxPre {
-					continue
-				}
-				if !rec(append(append([]int{}, r.Chosen[:j]...), alt)) {
-					return false
-				}
-			}
-		}
-		return true
-	}
-	rec(base)
+		return r
+	}, r0.Chosen, maxPre, limit, func(sched.Result) {})
 }
 
 func has(s []int, x int) bool {
@@ -392,20 +364,26 @@ func run(c *core.Ctx) {
 	}
 	battery = append(battery, [2][]CallSpec{{{Op: "AddSet", S: 0, Arg: 1}}, {mk("Remove", 0)}})
 	battery = append(battery, [2][]CallSpec{{{Op: "RemoveSet", S: 0, Arg: 0}}, {mk("Add", 1)}})
+	// more programs: a racing pair followed by calls that promote the dirty map and re-observe
+	for _, a := range []string{"Add", "Remove"} {
+		for _, v := range []int{0, 1} {
+			battery = append(battery, [2][]CallSpec{{mk("Add", 2)}, {mk(a, v), mk("Len", 0), mk("Has", v)}})
+			battery = append(battery, [2][]CallSpec{{mk("Add", 2), mk("Len", 0)}, {mk(a, v), mk("Has", v), mk("Add", v)}})
+		}
+	}
 	maxPre := c.N(2, 3, 2)
-	limit := c.N(25, 400, 150)
-	for bi, b := range battery {
+	limit := c.N(300, 1500, 600)
+	emitEvery, emitCount = c.N(40, 40, 1), 0
+	for _, b := range battery {
 		for lay := 0; lay < 6; lay++ {
-			if c.Tier == "quick" && (bi+lay)%3 != int(c.Seed%3) {
-				continue
-			}
 			cs := Case{Prefix: layout(lay), Progs: [][]CallSpec{b[0], b[1]}, Kind: fmt.Sprintf("explore_l%d", lay)}
-			if bi >= len(battery)-2 { // give set 1 some contents for AddSet
+			if b[0][0].Op == "AddSet" || b[0][0].Op == "RemoveSet" { // give set 1 some contents for AddSet
 				cs.Prefix = append(append([]CallSpec{}, cs.Prefix...), CallSpec{Op: "Add", S: 1, V: 0}, CallSpec{Op: "Add", S: 1, V: 3})
 			}
 			explore(c, cs, maxPre, limit)
 		}
 	}
+	emitEvery = 1
 	// 2. random schedules: 2-8 goroutines over universe {0,1} (8 only with one call each)
 	opsA := []string{"Add", "Add", "Remove", "Remove", "Has", "Len", "AddSet", "RemoveSet"}
 	for i := c.N(500, 40000, 8000); i > 0; i-- {
